@@ -2,6 +2,7 @@ package main
 
 import (
 	"fmt"
+	"os"
 	"go/token"
 	"go/types"
 	"math"
@@ -92,7 +93,71 @@ func (bc *boundsCtx) sameSeq(a, b ssa.Value) bool {
 			return true
 		}
 	}
-	return bc.memID(a) == bc.memID(b)
+	if bc.memID(a) == bc.memID(b) {
+		return true
+	}
+	// the same field path of the same by-value record: a struct parameter is a copy of the caller's argument, and
+	// nobody writes the copies
+	ra, pa := bc.valuePath(a, 0)
+	rb, pb := bc.valuePath(b, 0)
+	if os.Getenv("YV_DEBUG") != "" && (pa != "" || pb != "") {
+		fmt.Fprintln(os.Stderr, "valuePath", bc.fn.Name(), bc.root.Name(), ra, pa, "|", rb, pb)
+	}
+	return ra != nil && ra == rb && pa == pb && pa != ""
+}
+
+// valuePath: v as a path of field selections from a root value, looking through whole-value copies: a local that
+// holds one copy of a struct (a by-value parameter spilled to the stack, never written field by field), a load of
+// such a local, a helper's struct parameter (the argument at its only call site in the tree of the root function).
+func (bc *boundsCtx) valuePath(v ssa.Value, depth int) (ssa.Value, string) {
+	if v == nil || depth > 8 {
+		return nil, ""
+	}
+	v = stripConv(v)
+	switch x := v.(type) {
+	case *ssa.UnOp:
+		if x.Op != token.MUL {
+			return v, ""
+		}
+		if fa, ok := x.X.(*ssa.FieldAddr); ok {
+			r, p := bc.valuePath(fa.X, depth+1)
+			if r == nil {
+				return nil, ""
+			}
+			return r, p + "." + fieldName(fa.X.Type(), fa.Field)
+		}
+		if a, ok := x.X.(*ssa.Alloc); ok {
+			return bc.valuePath(a, depth+1)
+		}
+		return v, ""
+	case *ssa.Field:
+		r, p := bc.valuePath(x.X, depth+1)
+		if r == nil {
+			return nil, ""
+		}
+		return r, p + "." + fieldName(x.X.Type(), x.Field)
+	case *ssa.Alloc:
+		if _, isStruct := x.Type().(*types.Pointer).Elem().Underlying().(*types.Struct); !isStruct {
+			return v, ""
+		}
+		if stores, ok := cellStores(x); ok && len(stores) == 1 && len(FieldStores(x.Parent(), x)) == 0 {
+			return bc.valuePath(stores[0].Val, depth+1)
+		}
+		return v, ""
+	case *ssa.Parameter:
+		if _, isStruct := x.Type().Underlying().(*types.Struct); !isStruct {
+			return v, ""
+		}
+		root := bc.root
+		if root == nil {
+			root = bc.fn
+		}
+		if u := bc.w.resolveUp(root, x); u != ssa.Value(x) {
+			return bc.valuePath(u, depth+1)
+		}
+		return v, ""
+	}
+	return v, ""
 }
 
 // norm: the integer value v denotes, looking through value-preserving (widening) integer conversions and, inside a
@@ -385,6 +450,12 @@ func (bc *boundsCtx) lenLB(x ssa.Value, b *ssa.BasicBlock) int64 {
 		up(arr)
 	}
 	// facts
+	if os.Getenv("YV_DEBUG") != "" && bc.fn.Name() == "decodeCertificateExtension" {
+		fmt.Fprintln(os.Stderr, "lenLB facts", bc.fn.Name(), bc.root.Name(), len(bc.facts.At(b)), bc.w.focus.Name(), bc.w.dynCallable(bc.fn), bc.w.transparent(bc.fn), len(bc.w.sitesIn(bc.root, bc.fn)))
+		for l := range bc.facts.At(b) {
+			fmt.Fprintln(os.Stderr, "   fact", l.Pol, bc.w.Short(l.V))
+		}
+	}
 	for l := range bc.facts.At(b) {
 		bin, ok := l.V.(*ssa.BinOp)
 		if !ok {
